@@ -84,6 +84,8 @@ def norm(segs, side, und):
             out.append((name, None, "count", {"count": v.get("count"), "elem": norm(v["elem"], side, und)}))
         elif cls == "vec":
             out.append((name, None, "vec", {"elem": norm(s["var"]["elem"], side, und)}))
+        elif cls == "align":
+            out.append(("A", None, "align", {"align": s.get("align")}))
         elif cls == "tail":
             out.append((name, None, "tail", {}))
         elif cls == "tail-alts":
@@ -112,3 +114,11 @@ def show(nsegs):
 
 def basename(n):
     return n.split(".")[0].split("[")[0].lower()
+
+
+def strip_trailing_align(nsegs):
+    """drop a write-side alignment after the last field (trailing pad bytes the reader never looks at)"""
+    out = list(nsegs)
+    while out and out[-1][2] == "align":
+        out.pop()
+    return out
